@@ -30,6 +30,6 @@ func Intn(n int) int {
 	}
 }
 
-func Int() int { return Intn(1 << 30) }
+func Int() int     { return Intn(1 << 30) }
 func Int63() int64 { return int64(Intn(1 << 30)) }
-func Seed(int64) {}
+func Seed(int64)   {}
